@@ -70,6 +70,7 @@ struct Choices {
     bool shuffle = true;         // seeded order of the elements inside a cell (else model order)
     bool cellname_props = false; // cell properties on the CELLNAME record (only with the table after the cells)
     bool layernames = false;     // LAYERNAME records (legal noise for a reader that does not use them)
+    bool hoist_text_props = false;  // common leading properties of the labels of one text go on its TEXTSTRING record
 };
 
 Choices random_choices(sim::Rng& r);
